@@ -77,7 +77,7 @@ func (Keeper).Liquidate
     call CreateDenom requires later_events: forall k int :: 1 <= k && k < len(periods) ==> periods[k].Length == oldLock[past + k].Length
     // the second SubtractAmountFromPeriods (on the fully vested vesting schedule, whose total is the original amount)
     // cannot fail for a valid account once the lockup check has passed
-    unreachable return11
+    unreachable return: return nil, errorsmod.Wrapf(types.ErrLiquidationFailed, "failed to calculate new schedule: %s", err.Error())#2
     call SetAccount requires account: isdyn(acc, *CVA) && dyn(acc, *CVA) == va
             && va.OriginalVesting == csub(oldheap(va.OriginalVesting), cone(d, A)) && va.StartTime == oldheap(va.StartTime)
     allow frame
